@@ -184,6 +184,18 @@ func c04Specs(tier string, seed int) []c04Spec {
 			with(func(s *c04Spec) { s.Kind = "uncovered series-ends-before-end-date same-year"; s.To = iso(y+1, 7, 14); s.SimEnd = iso(y+1, 7, 15) })
 		}
 	}
+	// use of the records: one field of one record changed, nothing may change before that day (three days x nine fields
+	// x weather layouts x ET methods x bare soil / standing crop)
+	for layout := 0; layout <= 2; layout++ {
+		for et := 1; et <= 5; et++ {
+			if et == 5 && layout != 1 {
+				continue // the reference ET column exists in the one-file-per-year layout only
+			}
+			for crop := 0; crop <= 1; crop++ {
+				out = append(out, c04Spec{Kind: "perturb", Layout: 10*layout + et - 1, NoYear: crop})
+			}
+		}
+	}
 	return out
 }
 
@@ -333,6 +345,10 @@ var c04Preco = [12]float64{1.25, 1.50, 1.12, 1.06, 1.03, 1.00, 0.75, 1.75, 1.37,
 
 func c04Run(raw json.RawMessage, c *mc.Ctx) {
 	sp := mc.Decode[c04Spec](raw)
+	if sp.Kind == "perturb" {
+		c04PerturbRun(sp, c)
+		return
+	}
 	root := scratchRoot()
 	defer os.RemoveAll(root)
 	b := e1Base{Soil: "sand20", GW: 99, InitW: 0.5, InitN: 10, ET: 3, Start: sp.SimStart}
